@@ -57,6 +57,18 @@ class Fwd:
     def finish(self): self.inner.finish()
 
 
+class ZeroScore:
+    """A learner whose score of every action is 0: RejectionCB accepts none of the logged interactions, so its evaluation is
+    complete and has NO rows (what an evaluation yields depends on the learner, not only on the environment)."""
+    def __init__(self, inner): self.inner = inner
+    @property
+    def params(self): return dict(self.inner.params, zero_score=True)
+    def score(self, context, actions, action=None): return 0 if action is not None else [0] * len(actions)
+    def predict(self, *a, **k): return self.inner.predict(*a, **k)
+    def learn(self, *a, **k): return self.inner.learn(*a, **k)
+    def finish(self): self.inner.finish()
+
+
 class VOff:
     """The built-in SequentialCB evaluating off-policy on logged data, behind explib's side channel."""
     def __init__(self, vid, side=None, learn="off"):
@@ -83,11 +95,12 @@ def build(shape, side=None, variant=0, **kw):
     """explib.build + the learner / evaluator kinds above (object identity = the shape's ids, as in explib)."""
     triples = explib.build(shape, side=side, variant=variant, **kw)
     ns = set(shape.get("noscore", [])); fwd = set(shape.get("fwd", [])); ips = {int(k): v for k, v in shape.get("ips", {}).items()}
-    if not (ns or fwd or ips): return triples
+    zs = set(shape.get("zeroscore", []))
+    if not (ns or fwd or ips or zs): return triples
     L = {}; V = {}
     for (e, l, v), (eo, lo, vo) in zip(shape["tr"], triples):
         if l not in L:
-            x = NoScore(lo) if l in ns else lo
+            x = NoScore(lo) if l in ns else ZeroScore(lo) if l in zs else lo
             L[l] = Fwd(x) if l in fwd else x
         if v not in V: V[v] = VOff(v, side=side, learn=ips[v]) if v in ips else vo
     return [(eo, L[l], V[v]) for (e, l, v), (eo, lo, vo) in zip(shape["tr"], triples)]
@@ -100,6 +113,10 @@ SCORE_SHAPES = [
     dict(tr=[(0, 0, 0), (0, 1, 0), (0, 0, 1), (0, 1, 1)], ch=[0], fail=[], noscore=[0], fwd=[0, 1], ips={0: "off"}, rej=[1], logged=[0], n_int=30, grid=_G),
     dict(tr=[(0, 0, 0), (0, 1, 0), (1, 0, 1), (1, 1, 1)], ch=[0, 0], fail=[], noscore=[1], fwd=[0, 1], ips={0: "off"}, rej=[1], logged=[0, 1], nact={1: 2}, n_int=30, grid=_G),
     dict(tr=[(0, 0, 0), (0, 1, 0), (0, 2, 0), (0, 2, 1)], ch=[1], fail=[], noscore=[0, 2], fwd=[1, 2], ips={0: "off", 1: "ips"}, logged=[0], n_int=30, grid=_G),
+    # an evaluation WITHOUT rows (RejectionCB accepts nothing of a learner whose scores are all 0) listed before one with rows, on a
+    # chunked environment, under chunkings that keep the two tasks together (mt=0, the in-process reference) and apart (mt=1)
+    dict(tr=[(0, 0, 0), (0, 1, 0), (0, 2, 0)], ch=[1], fail=[], zeroscore=[0], rej=[0], logged=[0], n_int=30,
+         grid=[dict(p=1, mc=0, mt=1), dict(p=2, mc=0, mt=1), dict(p=1, mc=1, mt=2), dict(p=2, mc=1, mt=0)]),
 ]
 
 
